@@ -52,9 +52,22 @@ type entryInfo struct {
 	Name   string
 	PkgDir string // relative to repo, e.g. "swap"
 	File   string
+	Also   []string // further properties this entry carries obligations for (// zzverif:also Cxx ...)
 }
 
-var entryRe = regexp.MustCompile(`(?m)^func (H_(C\d+)_\w+)\(\)`)
+func (e entryInfo) serves(prop string) bool {
+	if propOf(e.Name) == prop {
+		return true
+	}
+	for _, a := range e.Also {
+		if a == prop {
+			return true
+		}
+	}
+	return false
+}
+
+var entryRe = regexp.MustCompile(`(?m)^(?://\s*zzverif:also((?:\s+C\d+)+)\s*\n)?func (H_(C\d+)_\w+)\(\)`)
 
 func discoverEntries(harnessDir string) ([]entryInfo, error) {
 	var out []entryInfo
@@ -68,7 +81,7 @@ func discoverEntries(harnessDir string) ([]entryInfo, error) {
 		}
 		rel, _ := filepath.Rel(harnessDir, p)
 		for _, mm := range entryRe.FindAllStringSubmatch(string(b), -1) {
-			out = append(out, entryInfo{Name: mm[1], PkgDir: filepath.Dir(rel), File: p})
+			out = append(out, entryInfo{Name: mm[2], PkgDir: filepath.Dir(rel), File: p, Also: strings.Fields(mm[1])})
 		}
 		return nil
 	})
@@ -77,6 +90,15 @@ func discoverEntries(harnessDir string) ([]entryInfo, error) {
 }
 
 func propOf(entry string) string { return strings.SplitN(entry, "_", 3)[1] }
+
+var labelPropRe = regexp.MustCompile(`^(C\d+)\.`)
+
+func labelProp(label string) string {
+	if mm := labelPropRe.FindStringSubmatch(label); mm != nil {
+		return mm[1]
+	}
+	return ""
+}
 
 type obligation struct {
 	Entry    string
@@ -210,7 +232,7 @@ func Run(cfg Config) int {
 	}
 	var entries []entryInfo
 	for _, e := range all {
-		if propOf(e.Name) != cfg.Property {
+		if !e.serves(cfg.Property) {
 			continue
 		}
 		if cfg.OnlyEntry != "" && e.Name != cfg.OnlyEntry {
@@ -282,6 +304,8 @@ func Run(cfg Config) int {
 			sem <- struct{}{}
 			defer func() { <-sem }()
 			results[i] = runEntry(cfg, prog, e, findings)
+			r := results[i]
+			fmt.Fprintf(os.Stderr, "[entry %s] paths=%d obligations=%d outcomes=%v queries=%d solver=%.1fs wall=%.1fs\n", e.Name, r.Paths, len(r.Obligations), r.Outcomes, r.Queries, r.SolverSecs, r.Wall)
 		}(i, e)
 	}
 	wg.Wait()
@@ -496,6 +520,9 @@ func runEntry(cfg Config, prog *symex.Program, e entryInfo, findings []Finding) 
 			}
 		}
 		for _, ar := range p.Asserts {
+			if lp := labelProp(ar.Label); lp != "" && lp != cfg.Property {
+				continue // obligation of another property served by the same entry
+			}
 			ob := &obligation{Entry: e.Name, Label: ar.Label, PathID: p.ID, PCLen: len(ar.PC)}
 			res.Obligations = append(res.Obligations, ob)
 			neg := smt.Not(ar.Cond)
